@@ -45,7 +45,32 @@ impl Probe for ReopenProbe {
             h.push(op.clone());
             cx.outcome(sha_hex(post.view(*r).to_string().as_bytes()));
             if let Some(d) = reopen_compare(post, *r) {
-                cx.violation("C03", "C03:reopen-differs-after-commit", sc, &h, d);
+                // after time travel the committer shows only the history below its new head, while a plain
+                // reopen also shows the abandoned branch: that difference is legitimate, and the commit
+                // is then checked through the head-addressed open below
+                let travelled = hist.iter().any(|o| matches!(o, Op::Travel(q, _) if q == r));
+                if !travelled {
+                    cx.violation("C03", "C03:reopen-differs-after-commit", sc, &h, d);
+                    return;
+                }
+            }
+            // the commit is durable under its own identifier: opening the storage "until" the returned
+            // head must succeed and show exactly what the committer shows
+            cx.count("commit_reopen_at_returned_head");
+            let store = post.reps[*r].store.snapshot();
+            crate::guard::set_trace("C03 new_until(returned head)");
+            let st = crate::adapter::Store::from_map(store);
+            let ids = to_delta_ids(&s.split(',').map(|x| x.to_string()).collect());
+            let ad = st.adapter();
+            match crate::guard::call("new_until", move || melda::melda::Melda::new_until(ad, &ids)) {
+                Ok(Ok(m2)) => {
+                    let (v2, v1) = (view(&m2), post.view(*r));
+                    if v2 != v1 {
+                        cx.violation("C03", "C03:state-at-returned-head-differs", sc, &h, json!({"differs": diff_keys(&v2, &v1), "reopened_at_head": v2, "committer": v1}));
+                    }
+                }
+                Ok(Err(e)) => cx.violation("C03", "C03:returned-head-cannot-be-opened", sc, &h, json!({"returned": s, "error": e.to_string()})),
+                Err(p) => cx.violation("C03", "C03:open-at-returned-head-panicked", sc, &h, json!({"returned": s, "panic": p})),
             }
         }
     }
@@ -178,6 +203,16 @@ pub fn scenarios(thorough: bool) -> Vec<Scenario> {
     v.push(single_scenario("single-kinds", kind_docs(), if thorough { 4 } else { 3 },
         &[Op::Commit(0, 2), Op::Snapshot(0), Op::Unstage(0)]));
     v.push(single_scenario("single-arrays", arr_docs(), if thorough { 4 } else { 3 }, &[Op::Snapshot(0)]));
+    // commits made after time travel, and beside foreign blocks that are known but not applied
+    {
+        let a = arr_docs();
+        let mut sc = single_scenario("single-travel", vec![a[0].clone(), a[2].clone(), a[3].clone(), a[9].clone()], if thorough { 6 } else { 5 },
+            &[Op::Travel(0, 0), Op::Travel(0, 1), Op::Reload(0)]);
+        sc.key_opts.heads = true;
+        sc.prologue = vec![Op::Upd(0, 0), Op::Commit(0, 0), Op::Upd(0, 1), Op::Commit(0, 1), Op::Upd(0, 2), Op::Commit(0, 0)];
+        sc.max_depth = if thorough { 5 } else { 4 };
+        v.push(sc);
+    }
     v.push(pair_conflict_scenario("pair-conflict", 2, 3, if thorough { &[1, 8, 4] } else { &[1, 8] }, if thorough { 5 } else { 4 },
         &[Op::Resolve(1, 0, 0), Op::Resolve(1, 0, 1), Op::Snapshot(1), Op::Commit(1, 2), Op::ObjPut(1, 1)]));
     // chains of several staged revisions of the same objects in the very first commit; discard and redo
